@@ -26,9 +26,13 @@ def dump_grid(grid):
 
 
 def _dump_grid_to_json(grid):
+    # The grid content follows the rules of the nearest official version,
+    # which is what the grid itself and the parser apply to this label.
+    meta = dump_meta(grid.metadata, version=grid.nearest_version)
+    meta['ver'] = str(grid.version)
     return {
-        'meta': dump_meta(grid.metadata, version=grid.version, grid=True),
-        'cols': dump_columns(grid.column, version=grid.version),
+        'meta': meta,
+        'cols': dump_columns(grid.column, version=grid.nearest_version),
         'rows': dump_rows(grid),
     }
 
@@ -67,8 +71,9 @@ def dump_rows(grid):
 
 
 def dump_row(grid, row):
+    version = grid.nearest_version
     return dict([
-        (c, dump_scalar(row.get(c), version=grid.version))
+        (c, dump_scalar(row.get(c), version=version))
         for c in list(grid.column.keys())])
 
 
